@@ -29,6 +29,11 @@ func (in *Interp) isNoopStub(fn *ssa.Function, name string) bool {
 	} else if fn.Object() != nil && fn.Object().Pkg() != nil {
 		path = fn.Object().Pkg().Path()
 	}
+	// harness entry points and the functions a spec names explicitly are interpreted even inside a
+	// package that is otherwise stubbed out (metrics, loggers)
+	if strings.HasPrefix(fn.Name(), "VerifH_") || strings.HasPrefix(fn.Name(), "verif") {
+		return false
+	}
 	for _, p := range in.cfg.noopPrefixes {
 		if strings.HasPrefix(path, p) {
 			return true
